@@ -444,7 +444,8 @@ def render(n, depth=0):
     if k == "Closure":
         return "|%s| %s" % (", ".join(render_pat(p) for p in n.get("params", [])), r(n["body"]))
     if k == "Struct":
-        return "%s{%s}" % (short_path(n.get("path", "?")), ", ".join("%s: %s" % (f["name"], r(f["e"])) for f in n["fields"]))
+        return "%s{%s}" % (short_path(n.get("path", "?")), ", ".join(
+            "%s: %s" % (f["name"], r(f["e"]) if "e" in f else render_pat(f.get("pat", {}))) for f in n["fields"]))
     if k == "Tup":
         return "(%s)" % ", ".join(r(x) for x in n["elems"])
     if k == "Array":
